@@ -459,7 +459,7 @@ def compare(o, ref, inp):
             pos, good_el = 0, len(got) == sum(len(b) for b in blocks)
             if good_el:
                 for b in blocks:
-                    if sorted(got[pos:pos + len(b)], key=repr) != sorted(b):
+                    if sorted(got[pos:pos + len(b)], key=repr) != sorted(b, key=repr):
                         good_el = False
                     pos += len(b)
             bad_a = o["cf"][1] != owners
